@@ -9,6 +9,13 @@ Fixpoint failures (i : N) (l : list bool) : list N :=
   | b :: t => if b then failures (N.succ i) t else i :: failures (N.succ i) t
   end.
 
+(* ids of the cases whose check evaluated to false *)
+Fixpoint failing_ids (l : list (N * bool)) : list N :=
+  match l with
+  | [] => []
+  | (i, b) :: t => if b then failing_ids t else i :: failing_ids t
+  end.
+
 Definition list_eqb {A} (eqb : A -> A -> bool) : list A -> list A -> bool :=
   fix go l1 l2 :=
     match l1, l2 with
